@@ -139,25 +139,48 @@ def check_switches(prog, rep, rule, where=lambda f: f.relfile.endswith('conversi
 
 
 # ------------------------------------------------------------------------------------------------ detection table (R13.5)
+BASE = {'Z': (0, 0), 'A': (1, 127), 'N': (128, 255)}
+
+
+def rng(c):
+    if isinstance(c, tuple):
+        return c
+    if isinstance(c, int):
+        return (c, c)
+    return BASE[c]
+
+
+class Refine(Exception):
+    """byte i of the text must be split at value t (ranges [lo, t-1] and [t, hi]) before the comparison can be decided"""
+
+    def __init__(self, i, t):
+        Exception.__init__(self)
+        self.i, self.t = i, t
+
+
 class Word(object):
-    """little-endian word whose bytes are known by class only: 'Z' zero, 'A' 0x01..0x7F, 'N' 0x80..0xFF, or a concrete int"""
-    __slots__ = ('b',)
+    """little-endian word whose bytes are known by range only; .pos = offset of byte 0 in the text"""
+    __slots__ = ('b', 'pos', 'order')
 
-    def __init__(self, b):
-        self.b = list(b)
+    def __init__(self, b, pos, order=None):
+        self.b = [rng(x) for x in b]
+        self.pos = pos
+        self.order = order if order is not None else list(range(len(self.b)))   # text offset (relative) of each byte of the value
 
-    def zero(self, i):
-        c = self.b[i]
-        return (c == 'Z' or c == 0) if not isinstance(c, int) or c == 0 else False
+    def span(self):
+        return (sum(lo << (8 * i) for i, (lo, hi) in enumerate(self.b)), sum(hi << (8 * i) for i, (lo, hi) in enumerate(self.b)))
 
     def __repr__(self):
-        return 'Word(%s)' % ','.join(str(x) for x in self.b)
+        return 'Word(%s)' % ','.join('%02x-%02x' % x for x in self.b)
 
 
 def byte_value(c):
-    if isinstance(c, int):
-        return c if c < 128 else c - 256
-    return {'Z': 0, 'A': Iv(1, 127), 'N': Iv(-128, -1)}[c]
+    lo, hi = rng(c)
+    if hi <= 127:
+        return lo if lo == hi else Iv(lo, hi)
+    if lo >= 128:
+        return (lo - 256) if lo == hi else Iv(lo - 256, hi - 256)
+    raise AnalysisBroken('detection table: byte class %r straddles the sign of char' % (c,))
 
 
 class DetectModel(Model):
@@ -165,7 +188,7 @@ class DetectModel(Model):
 
     def __init__(self, prog, cells, bom_table):
         self.prog = prog
-        self.cells = cells
+        self.cells = [rng(c) for c in cells]
         self.L = len(cells)
         self.boms = bom_table
 
@@ -194,14 +217,29 @@ class DetectModel(Model):
                 return TOP
             if w == 1:
                 return byte_value(self.cells[v.k])
-            return Word(self.cells[v.k:v.k + w])
+            return Word(self.cells[v.k:v.k + w], v.k)
         return TOP
 
     def compare(self, it, fr, n, op, a, b):
-        for x, y in ((a, b), (b, a)):
-            if isinstance(x, Word) and isinstance(y, int) and y == 0 and op in ('==', '!='):
-                allz = all(c == 'Z' or c == 0 for c in x.b)
-                return (1 if allz else 0) if op == '==' else (0 if allz else 1)
+        flip = {'<': '>', '>': '<', '<=': '>=', '>=': '<=', '==': '==', '!=': '!='}
+        for x, y, o in ((a, b, op), (b, a, flip[op])):
+            if isinstance(x, Word) and isinstance(y, int):
+                lo, hi = x.span()
+                r = interval.compare(o, Iv(lo, hi), Iv(y, y))
+                if r is not None:
+                    return r
+                # undecided: refine the most significant byte whose range straddles the constant's byte
+                for i in range(len(x.b) - 1, -1, -1):
+                    blo, bhi = x.b[i]
+                    c = (y >> (8 * i)) & 0xff
+                    if blo == bhi:
+                        continue
+                    if blo <= c <= bhi:
+                        for t in (c, c + 1):
+                            if blo < t <= bhi:
+                                raise Refine(x.pos + x.order[i], t)
+                    # the constant's byte lies outside this byte's range: a more significant byte decides - keep looking
+                raise AnalysisBroken('detection table: comparison %s 0x%x undecidable on byte ranges %r at %s' % (o, y, x, fr.f.loc(n)))
         ia, ib = interval.as_iv(a), interval.as_iv(b)
         if ia is not None and ib is not None:
             r = interval.compare(op, ia, ib)
@@ -218,10 +256,10 @@ class DetectModel(Model):
                 if m == 0xff:
                     out.append(c)
                 elif m == 0:
-                    out.append('Z')
+                    out.append((0, 0))
                 else:
                     raise AnalysisBroken('detection table: mask 0x%x is not byte-aligned at %s' % (b, fr.f.loc(n)))
-            return Word(out)
+            return Word(out, a.pos, a.order)
         return TOP
 
     def primitive(self, it, fr, n, callee, depth):
@@ -237,18 +275,12 @@ class DetectModel(Model):
             for i, bb in enumerate(bom):
                 if i >= self.L:
                     return 0
-                c = self.cells[i]
-                if isinstance(c, int):
-                    if c != bb:
-                        return 0
-                    continue
-                cls_of = 'Z' if bb == 0 else ('A' if bb < 0x80 else 'N')
-                if c != cls_of:
+                lo, hi = self.cells[i]
+                if bb < lo or bb > hi:
                     return 0
-                if c == 'Z':
+                if lo == hi:
                     continue
-                if not it.choose('BOMBYTE %s[%d]' % (m.group(1), i)):
-                    return 0
+                raise Refine(i, bb if lo < bb else bb + 1)
             return 1
         if q.startswith('std::basic_string_view'):
             if name in ('size', 'length'):
@@ -263,6 +295,11 @@ class DetectModel(Model):
             return TOP
         if name in ('NativeToLittleEndian', 'LittleEndianToNative'):
             return it.ev(fr, args[0], depth)
+        if name == 'Reverse' and len(args) == 1:
+            v = it.ev(fr, args[0], depth)
+            if isinstance(v, Word):
+                return Word(list(reversed(v.b)), v.pos, list(reversed(v.order)))
+            return TOP
         if not callee.get('repo'):
             for a in args:
                 it.ev(fr, a, depth)
@@ -283,16 +320,36 @@ class DetectInterp(Interp):
 
 
 def detect(prog, f, cells, bom_table):
-    it = DetectInterp(prog, DetectModel(prog, cells, bom_table), max_depth=2, max_paths=64)
-
-    def init(it_, fr):
-        fr.env[f.params[0]['d']] = Sym('VIEW')
-        fr.alias[f.params[1]['d']] = 'out.offset'
+    """[(sub-cell ranges, result, offset, probes)] - the cell is refined until every comparison is decided"""
+    work = [[rng(c) for c in cells]]
     out = []
-    for p in it.run(f, init):
-        probes = [a for a in p.actions if a[0] == 'PROBE']
-        res = p.outcome[1] if p.outcome[0] == 'RET' else 'THROW'
-        out.append((res, p.store.get('out.offset', TOP), probes, [a[1] for a in p.actions if a[0] == 'BOMTEST']))
+    n = 0
+    while work:
+        cur = work.pop()
+        n += 1
+        if n > 400:
+            raise AnalysisBroken('detection table: cell %r keeps refining' % (cells,))
+        it = DetectInterp(prog, DetectModel(prog, cur, bom_table), max_depth=2, max_paths=64)
+
+        def init(it_, fr):
+            fr.env[f.params[0]['d']] = Sym('VIEW')
+            fr.alias[f.params[1]['d']] = 'out.offset'
+        try:
+            paths = it.run(f, init)
+        except Refine as r:
+            lo, hi = cur[r.i]
+            if not (lo < r.t <= hi):
+                raise AnalysisBroken('detection table: bad refinement of byte %d at %d in %r' % (r.i, r.t, cur))
+            a, b = list(cur), list(cur)
+            a[r.i] = (lo, r.t - 1)
+            b[r.i] = (r.t, hi)
+            work.append(a)
+            work.append(b)
+            continue
+        for p in paths:
+            probes = [a for a in p.actions if a[0] == 'PROBE']
+            res = p.outcome[1] if p.outcome[0] == 'RET' else 'THROW'
+            out.append((res, p.store.get('out.offset', TOP), probes, cur))
     return out
 
 
@@ -530,7 +587,8 @@ def check_detect(rep, det, site, enc, offset, res, what, enum):
                 bad.append(('probe', 'reads %d bytes at offset %d of a %s-byte view' % (p[1], p[2], 'shorter'), p[4]))
         if r != want:
             names = dict((v, k) for k, v in enum['items'].items())
-            bad.append(('result', 'detected as %s' % names.get(r, r), det.loc()))
+            sub = ' '.join(('%02X' % lo) if lo == hi else ('%02X-%02X' % (lo, hi)) for lo, hi in _)
+            bad.append(('result', 'detected as %s (bytes %s)' % (names.get(r, r), sub), det.loc()))
         elif off != offset:
             bad.append(('offset', 'data offset %s instead of %d' % (off, offset), det.loc()))
     if not res:
